@@ -528,6 +528,11 @@ func (s SOpts) objsets() string {
 // doSign performs the real Sign and returns observation lines; blobs are the contents of the
 // signature objects it appended, in order.
 func (e *Env) doSign(s SOpts) (lines []string, blobs [][]byte, now int64, fp []byte, err error) {
+	lines, blobs, _, now, fp, err = e.doSignT(s)
+	return
+}
+
+func (e *Env) doSignT(s SOpts) (lines []string, blobs [][]byte, nows []int64, now int64, fp []byte, err error) {
 	u := getUniverse()
 	var opts []integrity.SignerOpt
 	if s.PGP >= 0 {
@@ -562,7 +567,7 @@ func (e *Env) doSign(s SOpts) (lines []string, blobs [][]byte, now int64, fp []b
 	}
 	sg, err := integrity.NewSigner(e.f, opts...)
 	if err != nil {
-		return []string{"sg newerr:" + ierrClass(err)}, nil, 0, fp, err
+		return []string{"sg newerr:" + ierrClass(err)}, nil, nil, 0, fp, err
 	}
 	serr := sg.Sign()
 	// the signature objects appended (possibly a prefix, when Sign failed part-way)
@@ -570,13 +575,14 @@ func (e *Env) doSign(s SOpts) (lines []string, blobs [][]byte, now int64, fp []b
 		id    uint32
 		group uint32
 		blob  []byte
+		ct    int64
 	}
 	var adds []added
 	e.f.WithDescriptors(func(d sif.Descriptor) bool {
 		if !before[d.ID()] {
 			b, _ := d.GetData()
 			l, _ := d.LinkedID()
-			adds = append(adds, added{d.ID(), l, b})
+			adds = append(adds, added{d.ID(), l, b, d.CreatedAt().Unix()})
 		}
 		return false
 	})
@@ -586,13 +592,14 @@ func (e *Env) doSign(s SOpts) (lines []string, blobs [][]byte, now int64, fp []b
 	lines = append(lines, "sg ok")
 	for _, a := range adds {
 		blobs = append(blobs, a.blob)
+		nows = append(nows, a.ct)
 		lines = append(lines, fmt.Sprintf("md g=%d %s", a.group, hx(oraclePayload(a.blob))), "res ok")
 	}
 	if serr != nil {
 		lines = append(lines, "sg failed")
 	}
 	now = e.f.ModifiedAt().Unix()
-	return lines, blobs, now, fp, serr
+	return lines, blobs, nows, now, fp, serr
 }
 
 // oraclePayload extracts the signed message of a freshly made signature blob.
